@@ -272,6 +272,22 @@ func checkFile(file []byte, names []string, res *CaseResult) map[string]*Got {
 		res.Prints = append(res.Prints, fingerprint(g))
 		res.Viols = append(res.Viols, compare(e, g, name)...)
 	}
+	// the empty name: "the only kernel of the file". The loader resolves it when the file defines exactly one
+	// kernel; the result must be what loading that kernel by its name gives.
+	if len(names) == 1 && rf.singleKernelSymbol() {
+		if byName := got[names[0]]; byName != nil {
+			res.Loads++
+			g, p := load(file, "")
+			switch {
+			case p != "":
+				res.Viols = append(res.Viols, Viol{"empty-name/loader-panic", "loading the only kernel with the empty name panicked: " + firstLine(p), names[0]})
+			case !bytes.Equal(g.Data, byName.Data) || !reflect.DeepEqual(g.Meta, byName.Meta) || g.Version != byName.Version || g.MetaNil != byName.MetaNil:
+				res.Viols = append(res.Viols, Viol{"empty-name/differs-from-load-by-name",
+					fmt.Sprintf("loading the only kernel of the file with the empty name gives version %d, %d instruction bytes, metadata %+v; by name: version %d, %d bytes, %+v",
+						g.Version, len(g.Data), g.Meta, byName.Version, len(byName.Data), byName.Meta), names[0]})
+			}
+		}
+	}
 	return got
 }
 
